@@ -346,7 +346,8 @@ func (state *RuntimeState) u2fSignResponse(w http.ResponseWriter, r *http.Reques
 	state.Mutex.Lock()
 	localAuth, ok := state.localAuthData[authData.Username]
 	state.Mutex.Unlock()
-	if !ok {
+	if !ok || localAuth.ExpiresAt.Before(time.Now()) ||
+		localAuth.U2fAuthChallenge == nil {
 		http.Error(w, "challenge missing", http.StatusBadRequest)
 		return
 	}
